@@ -442,7 +442,17 @@ def pack_unpack(repo: Repo, rep, P: str, rule: str):
             ocon = f"{o.owner.file.rel}:{o.owner.qualname}.{o.name}"
             text = f"{ci.name}.{o.name} byte={o.get('byte')} bit={o.get('bit')} size={size}"
             if got is None:
-                rep.violation(f"{P}.{rule}", f"{rel}:Module.load_options", text, "the reader never stores this option", f"{rel}:{rloop.lineno}")
+                # a store through a name this rule does not follow (`values = self.option_values; values[k] = …`) is not "no store"
+                other = sorted({norm(t.value) for lp in _loops_over_options(rfn) for n in ast.walk(lp) if isinstance(n, (ast.Assign, ast.AugAssign))
+                                for t in (n.targets if isinstance(n, ast.Assign) else [n.target]) if isinstance(t, ast.Subscript)
+                                and norm(t.value) not in ("self.option_values", "bytemap")} |
+                               {norm(c.func) for lp in _loops_over_options(rfn) for c in ast.walk(lp) if isinstance(c, ast.Call)
+                                and norm(c.func).split(".")[-1] in ("setattr", "__setitem__", "update", "setdefault")})
+                if other:
+                    rep.inconclusive(f"{P}.{rule}", f"{rel}:Module.load_options", text, f"the reader stores through {other}, which this rule does not follow",
+                                     f"{rel}:{rloop.lineno}")
+                else:
+                    rep.violation(f"{P}.{rule}", f"{rel}:Module.load_options", text, "the reader never stores this option", f"{rel}:{rloop.lineno}")
                 continue
             lb = low_bits_of_single_term(got)
             if lb is not None and o.get("min") is not None and lb[0] == f"clamp({o.name},{o.get('min')},{o.get('max')})":
@@ -481,7 +491,7 @@ def _options_nf(repo: Repo, mod: ClassInfo, name: str) -> ast.FunctionDef:
     """The options writer / reader in normal form; private methods of the Option object called on the loop variable
     (`option._stored_value_from(bytemap)`) are read through."""
     from .. import inline
-    fn = inline.normalize(repo, mod, repo.own_method(mod, name))
+    fn = inline.normalize(repo, mod, repo.own_method(mod, name), aliases=True)
     try:
         opt = repo.cls("Option", module="rv.option")
     except Exception:
@@ -493,7 +503,7 @@ def _options_nf(repo: Repo, mod: ClassInfo, name: str) -> ast.FunctionDef:
                                                    for c in ast.walk(lp)):
             recv[lp.target.id] = opt
     if recv:
-        fn = inline.normalize(repo, mod, repo.own_method(mod, name), receivers=recv)
+        fn = inline.normalize(repo, mod, repo.own_method(mod, name), receivers=recv, aliases=True)
     return fn
 
 
@@ -570,6 +580,12 @@ def record_length(repo: Repo, rep, P: str):
                 for zl, cc in ((comp.left, comp.right), (comp.right, comp.left)):
                     if isinstance(zl, (ast.List, ast.Tuple)) and len(zl.elts) == 1 and isinstance(zl.elts[0], ast.Constant) and dflt is None:
                         comp, dflt = cc, zl.elts[0]
+                        break
+            if isinstance(comp, (ast.List, ast.Tuple)) and len(comp.elts) == 2 and dflt is None:
+                # max([0, *(option.byte + 1 for ...)])
+                for zl, cc in ((comp.elts[0], comp.elts[1]), (comp.elts[1], comp.elts[0])):
+                    if isinstance(zl, ast.Constant) and isinstance(cc, ast.Starred):
+                        comp, dflt = cc.value, zl
                         break
             from ..packed import single_defs as _sd
             it_defs = _sd(wfn)
